@@ -109,23 +109,22 @@ def k_nulls(nulls):
 
 def bad_plumbing(view, j, c, m):
     """Conservative exclusion predicate: reading column c of row group j under the boolean slice m goes through
-    a mask path of core.read_col / read_data_page_v2 that is known to be broken on the pinned tree."""
+    a mask path of core.read_data_page_v2 that is known to be broken on the pinned tree.  (The v1 families -
+    several pages per chunk, nulls before the first selected row - were repaired in /repo by e953da1 and are
+    enumerated like every other case since.)"""
     n = len(m)
     s = int(m.sum())
     if s == 0 or s == n or c in view.partcols:
         return False                    # whole row group / skipped row group / path-derived column: no mask path
     ver, pages = view.layout.get((j, c), (1, 1))
+    if ver != 2:
+        return False
     if pages >= 2:
         return True
     kind = col_kind(view, c)
     lo = view.offsets[j]
     nulls = view.nullmask[c][lo:lo + n]
-    if ver == 2:
-        return kind == "cat" or (kind == "nullable" and k_nulls(nulls))
-    k = int(nulls.sum())
-    if k and m[:n - k].sum() == 0:
-        return True                     # v1: emptiness test looks at the first (n - nulls) mask entries only
-    return False
+    return kind == "cat" or (kind == "nullable" and k_nulls(nulls))
 
 
 def any_bad(view, cols, mask, rgs=None):
